@@ -166,6 +166,19 @@ def tick_rule(cx, run, R="R1", exact=True):
     run.floor(R, n, 4, "tick conversions")
 
 
+def elem_like(x):
+    """the current element of the encoder's input: `input[i]` or the item of a value-preserving iterator chain over the input"""
+    if x[0] == "load" and str(x[1]).startswith("arg1.[]"):
+        return True
+    # `for d in input.iter().copied()`: the item is `next(<value-preserving adaptors over the input>).as Some.0`
+    if x[0] == "proj" and x[2] == "0" and x[1][0] == "proj" and x[1][2] == "as Some" and x[1][1][0] == "call" and x[1][1][1].split("::")[-1] == "next" and x[1][1][2]:
+        r_ = x[1][1][2][0]
+        while r_[0] == "ref" or (r_[0] == "call" and r_[1].split("::")[-1] in ("into_iter", "iter", "copied", "cloned", "by_ref", "deref", "as_slice") and r_[2]):
+            r_ = r_[1] if r_[0] == "ref" else r_[2][0]
+        return r_[:2] == ("arg", 1) or (r_[0] in ("load", "refplace") and str(r_[1]) in ("arg1", "arg1.*"))
+    return False
+
+
 def rle_rule(prog, run, R="R6"):
     u = prog.lib
     g = mir.Graph(u)
@@ -228,12 +241,12 @@ def rle_rule(prog, run, R="R6"):
             if d[0] == "bin" and d[1] == "Eq" and guards.truth(tk) and val_path:
                 sides = [d[2], d[3]]
                 is_val = [x for x in sides if x[0] == "load" and same_path(x[1], val_path)]
-                is_elem = [x for x in sides if x[0] == "load" and str(x[1]).startswith("arg1.[]")]
+                is_elem = [x for x in sides if elem_like(x)]
                 ok = len(is_val) == 1 and len(is_elem) == 1
         run.check(ok, R, want + " merge-guard", "run extended only under `run.value == element`", "the run count is incremented under `%s`, which is not exact equality of the run's value with the current element: distinct durations/offsets are merged" % desc, mir.loc_of(node))
         newrun = [p_ for p_ in pushes if p_[1] == root]
         good = len(newrun) == 1 and newrun[0][2][0] == "agg" and newrun[0][2][1] == "tuple" and len(newrun[0][2][3]) == 2 and newrun[0][2][3][0][:2] == ("const", 1) \
-            and newrun[0][2][3][1][0] == "load" and str(newrun[0][2][3][1][1]).startswith("arg1.[]")
+            and elem_like(newrun[0][2][3][1])
         # every element is accounted for: from the loop's element branch the next iteration is reachable only through the
         # increment or the push (no `continue` that drops an element from the table while stsz/stco still count it)
         heads = [blk["i"] for blk in b["blocks"] if blk["term"]["k"] == "call" and (mir.callee(blk["term"])[0] or "").endswith("::next") and not blk.get("cleanup")]
@@ -278,23 +291,28 @@ def stts_values_rule(run, R, key, kind, stts):
     """the deltas stts carries are the elements' own durations: no emitted value is taken from the table under construction (a previous
     run's value written again for a "close enough" element) or from anywhere but the current element"""
     vals = []
+    is_elem = lambda y: isinstance(y, tuple) and y[:1] == ("elem",)
 
-    def atoms_(sgs):
+    def atoms_(sgs, under):
+        # `under`: the segment is selected by a test on the current element (`match sample.duration { Some(d) => d, None => fall-back }`):
+        # the arm's value then is a function of the current element even where it does not mention it
         for sg in sgs:
             if sg[0] == "be":
-                vals.append(sg[1])
+                vals.append((sg[1], under))
             elif sg[0] == "rep":
-                atoms_(sg[3])
+                atoms_(sg[3], under)
             elif sg[0] == "alt":
-                atoms_(sg[2])
-                atoms_(sg[3])
+                u_ = under or L.mentions(sg[1], is_elem)
+                atoms_(sg[2], u_)
+                atoms_(sg[3], u_)
             elif sg[0] == "match":
+                u_ = under or L.mentions(sg[1], is_elem)
                 for _p, x_ in sg[2]:
-                    atoms_(x_)
+                    atoms_(x_, u_)
             elif sg[0] in ("perm",):
-                atoms_(sg[2])
-    atoms_([sg for sg in stts[2] if sg[0] in ("rep", "alt", "match", "perm")])
-    foreign = [v_ for v_ in vals if L.mentions(v_, lambda y: isinstance(y, tuple) and y[:1] == ("list",)) or not L.mentions(v_, lambda y: isinstance(y, tuple) and y[:1] == ("elem",))]
+                atoms_(sg[2], under)
+    atoms_([sg for sg in stts[2] if sg[0] in ("rep", "alt", "match", "perm")], False)
+    foreign = [v_ for (v_, u_) in vals if L.mentions(v_, lambda y: isinstance(y, tuple) and y[:1] == ("list",)) or not (u_ or L.mentions(v_, is_elem))]
     run.check(bool(vals) and not foreign, R, "%s %s stts deltas are the elements' own durations" % (key, kind), "%d emitted delta expression(s), each a function of the current element only" % len(vals),
               "stts writes a delta that is not the current sample's own duration (%s): the track's timeline is no longer the sum of the submitted deltas" % (L.show(foreign[0])[:120] if foreign else "no delta found"))
 
@@ -357,6 +375,10 @@ def ctts_rule(run, key, trak, m, q):
         el = ("elem", qe, lid)
         off = ("cast", "i32", ("bin", "Sub", ("cast", "i64", ("field", el, "pts")), ("cast", "i64", ("field", el, "dts"))))
         ok = step == ("if", ("bin", "Ne", off, ("lit", 0)), ("bool", True), ("acc", step[3][1] if step[0] == "if" and step[3][0] == "acc" else "?", lid))
+        if not ok and step[0] == "bin" and step[1] in ("BitOr", "Or") and len(step) == 4:
+            # the same fold spelled `flag |= off != 0` / `flag = flag || off != 0`
+            sides = [step[2], step[3]]
+            ok = any(x[0] == "acc" for x in sides) and any(x == ("bin", "Ne", off, ("lit", 0)) for x in sides)
     if not ok and cond[0] == "mcall" and cond[1].split("::")[-1] == "any" and len(cond[3]) == 1 and cond[3][0][0] == "lambda":
         # `offsets.iter().any(|&o| o != 0)` over `queue.iter().map(|s| (pts - dts) as i32).collect()`
         lam = cond[3][0]
